@@ -76,6 +76,10 @@ pub fn run(ctx: &mut Ctx) {
         (1 << 10, "Wait ~long rest{} and go.", 1, Box::new(|s| s.contains(&format!("M({};-)", r_cps("long rest"))) && !s.contains("diags=[E"))),
         (1 << 1, "Add @&salt{}.", 0, Box::new(|s| s.contains(&format!("I({};", r_cps("&salt"))) && !s.contains("diags=[E"))),
         (1 << 1, "Add @?salt{} and #-pan{} and @+@x{}.", 0, Box::new(|s| s.contains(&format!("I({};", r_cps("?salt"))) && s.contains(&format!("C({};", r_cps("-pan"))) && !s.contains("diags=[E"))),
+        // INTERMEDIATE_PREPARATIONS is a composite flag (bit 11 + COMPONENT_MODIFIERS): with bit 11 off, `&(1)` is the reference
+        // modifier followed by a name that starts with a parenthesis (or, without modifiers, all of it is the name)
+        (1 << 11, "Mix @(1)dough{500%g}.\n\nBake @&(1)dough{}.", 0, Box::new(|s| !s.contains(">step") && !s.contains(">section") && !s.contains("diags=[E"))),
+        (1 << 11, "Mix.\n\n= B\n\nBake @&(~1)dough{} and @&(=1)x{} and @&(=~1)y{}.", 1, Box::new(|s| !s.contains(">step") && !s.contains(">section"))),
     ];
     for (flag, input, conv, pred) in &cases {
         for k in 0..256 {
